@@ -329,10 +329,32 @@ fn flush_output_buffer(
     response_tx: &Sender<Value>,
     base_msg: &HashMap<Vec<u8>, Value>,
 ) {
+    #[cfg(wilfred_garden_verif)]
+    let mut verif_guard = verif::lock();
     let captured = std::mem::take(&mut *buf.lock().expect("output buffer poisoned"));
+    #[cfg(wilfred_garden_verif)]
+    {
+        verif::ev(
+            &mut verif_guard,
+            &format!(
+                "{} take {} {}",
+                verif::who(base_msg),
+                String::from_utf8_lossy(key),
+                captured.len()
+            ),
+        );
+        drop(verif_guard);
+    }
     if !captured.is_empty() {
         let mut msg = base_msg.clone();
         msg.insert(key.to_vec(), bstr(captured));
+        #[cfg(wilfred_garden_verif)]
+        let mut verif_guard = verif::lock();
+        #[cfg(wilfred_garden_verif)]
+        verif::ev(
+            &mut verif_guard,
+            &format!("{} send {}", verif::who(base_msg), String::from_utf8_lossy(key)),
+        );
         let _ = response_tx.send(Value::Dict(msg));
     }
 }
@@ -354,6 +376,8 @@ fn spawn_output_flusher(
         .spawn(move || loop {
             match stop_rx.recv_timeout(OUTPUT_FLUSH_INTERVAL) {
                 Err(RecvTimeoutError::Timeout) => {
+                    #[cfg(wilfred_garden_verif)]
+                    verif::ev1(&format!("{} timeout", verif::who(&base_msg)));
                     flush_output_buffer(&stdout_buf, b"out", &response_tx, &base_msg);
                     flush_output_buffer(&stderr_buf, b"err", &response_tx, &base_msg);
                 }
@@ -386,6 +410,8 @@ fn eval_code_in_namespace(
     let mut responses = Vec::new();
 
     if !errors.is_empty() {
+        #[cfg(wilfred_garden_verif)]
+        verif::ev1(&format!("{} bparse", verif::who(base_msg)));
         let msg = errors
             .into_iter()
             .map(|e| match e {
@@ -419,6 +445,10 @@ fn eval_code_in_namespace(
 
         let mut warn_msg = base_msg.clone();
         warn_msg.insert(b"err".to_vec(), bstr(format!("{warnings}\n")));
+        #[cfg(wilfred_garden_verif)]
+        let mut verif_guard = verif::lock();
+        #[cfg(wilfred_garden_verif)]
+        verif::ev(&mut verif_guard, &format!("{} bwarn", verif::who(base_msg)));
         let _ = response_tx.send(Value::Dict(warn_msg));
     }
 
@@ -434,14 +464,36 @@ fn eval_code_in_namespace(
         base_msg.clone(),
         flush_stop_rx,
     );
+    #[cfg(wilfred_garden_verif)]
+    verif::ev1(&format!("{} bspawn", verif::who(base_msg)));
 
     let eval_start = Instant::now();
     let eval_result = eval_toplevel_exprs_then_stop(&items, env, session, Rc::clone(&namespace));
     let eval_msec = eval_start.elapsed().as_millis() as i64;
 
+    #[cfg(wilfred_garden_verif)]
+    verif::ev1(&format!(
+        "{} fin {}",
+        verif::who(base_msg),
+        match &eval_result {
+            Ok(_) => "ok",
+            Err(EvalError::Interrupted) => "int",
+            Err(_) => "err",
+        }
+    ));
+
     // Stop the flusher and drain whatever printed since its last pass.
+    #[cfg(wilfred_garden_verif)]
+    let mut verif_guard = verif::lock();
     drop(flush_stop_tx);
+    #[cfg(wilfred_garden_verif)]
+    {
+        verif::ev(&mut verif_guard, &format!("{} stopfl", verif::who(base_msg)));
+        drop(verif_guard);
+    }
     let _ = flusher.join();
+    #[cfg(wilfred_garden_verif)]
+    verif::ev1(&format!("{} join", verif::who(base_msg)));
     flush_output_buffer(stdout_buf, b"out", response_tx, base_msg);
     flush_output_buffer(stderr_buf, b"err", response_tx, base_msg);
 
@@ -705,8 +757,19 @@ impl SessionState {
     fn shut_down(&self) {
         // `closed` must be set first: the worker reads it after
         // clearing `interrupted`.
+        #[cfg(wilfred_garden_verif)]
+        let mut verif_guard = verif::lock();
         self.closed.store(true, Ordering::SeqCst);
+        #[cfg(wilfred_garden_verif)]
+        {
+            verif::ev(&mut verif_guard, "rd closed");
+            drop(verif_guard);
+        }
+        #[cfg(wilfred_garden_verif)]
+        let mut verif_guard = verif::lock();
         self.interrupted.store(true, Ordering::SeqCst);
+        #[cfg(wilfred_garden_verif)]
+        verif::ev(&mut verif_guard, "rd flag");
     }
 }
 
@@ -792,10 +855,20 @@ impl Connection {
         if let Some(s) = self.sessions.get(id) {
             s.shut_down();
         }
+        #[cfg(wilfred_garden_verif)]
+        let mut verif_guard = verif::lock();
+        #[cfg(wilfred_garden_verif)]
+        if self.sessions.contains_key(id) {
+            verif::ev(&mut verif_guard, "rd drop");
+        }
         self.sessions.remove(id).is_some()
     }
 
     fn send(&self, msg: Value) {
+        #[cfg(wilfred_garden_verif)]
+        let mut verif_guard = verif::lock();
+        #[cfg(wilfred_garden_verif)]
+        verif::ev(&mut verif_guard, "rd send");
         let _ = self.response_tx.send(msg);
     }
 }
@@ -811,6 +884,8 @@ fn dispatch_to_session(
 ) {
     let session = session_id.and_then(|s| conn.sessions.get(s));
     let Some(session) = session else {
+        #[cfg(wilfred_garden_verif)]
+        verif::ev1("rd unk");
         let mut msg = base;
         msg.insert(
             b"status".to_vec(),
@@ -821,6 +896,9 @@ fn dispatch_to_session(
     };
 
     let req = build_request(base.clone());
+    // Logged just before the send: only the worker's dequeue observes it.
+    #[cfg(wilfred_garden_verif)]
+    verif::ev1("rd enq");
     if session.request_tx.send(req).is_err() {
         let mut msg = base;
         msg.insert(
@@ -869,15 +947,34 @@ fn session_worker(
     let id_gen = IdGenerator::default();
     let vfs = Vfs::default();
     let mut env = Env::new(id_gen, vfs);
+    #[cfg(wilfred_garden_verif)]
+    verif::enter_worker();
 
     while let Ok(req) = request_rx.recv() {
+        #[cfg(wilfred_garden_verif)]
+        verif::ev1(&format!("w {} deq", verif::sid()));
         // Clear any stray interrupt set while the session was idle.
+        #[cfg(wilfred_garden_verif)]
+        let mut verif_guard = verif::lock();
         interrupted.store(false, Ordering::SeqCst);
+        #[cfg(wilfred_garden_verif)]
+        {
+            verif::ev(&mut verif_guard, &format!("w {} reset", verif::sid()));
+            drop(verif_guard);
+        }
         // ...but a closed session must not run anything to completion:
         // re-raise the flag so this request stops at its first step.
+        #[cfg(wilfred_garden_verif)]
+        let mut verif_guard = verif::lock();
+        #[cfg(wilfred_garden_verif)]
+        verif::ev(&mut verif_guard, &format!("w {} ldc", verif::sid()));
         if closed.load(Ordering::SeqCst) {
             interrupted.store(true, Ordering::SeqCst);
+            #[cfg(wilfred_garden_verif)]
+            verif::ev(&mut verif_guard, &format!("w {} reflag", verif::sid()));
         }
+        #[cfg(wilfred_garden_verif)]
+        drop(verif_guard);
 
         let stdout_buf = Arc::new(Mutex::new(String::new()));
         let stderr_buf = Arc::new(Mutex::new(String::new()));
@@ -924,18 +1021,38 @@ fn session_worker(
                 &print_opts,
             ),
             SessionRequest::Completions { prefix, base_msg } => {
+                #[cfg(wilfred_garden_verif)]
+                verif::ev1(&format!("w {} bsimple", verif::sid()));
                 handle_completions(&env, &prefix, &base_msg)
             }
             SessionRequest::Lookup { sym, base_msg } => {
+                #[cfg(wilfred_garden_verif)]
+                verif::ev1(&format!("w {} bsimple", verif::sid()));
                 handle_lookup(&env, &sym, &base_msg, temp_built_in_files.as_ref().as_ref())
             }
         };
         for r in responses {
+            #[cfg(wilfred_garden_verif)]
+            let mut verif_guard = verif::lock();
+            #[cfg(wilfred_garden_verif)]
+            verif::ev(
+                &mut verif_guard,
+                &format!(
+                    "w {} send {}",
+                    verif::sid(),
+                    match &r {
+                        Value::Dict(d) if d.contains_key(b"status".as_slice()) => "done",
+                        _ => "text",
+                    }
+                ),
+            );
             if response_tx.send(r).is_err() {
                 return;
             }
         }
     }
+    #[cfg(wilfred_garden_verif)]
+    verif::ev1(&format!("w {} exit", verif::sid()));
 }
 
 /// Build the base response dict, copying the `id` and `session`
@@ -1196,6 +1313,8 @@ fn handle_message(conn: &mut Connection, request: &HashMap<Vec<u8>, Value>) {
         }
         "clone" => {
             let new_id = conn.new_session();
+            #[cfg(wilfred_garden_verif)]
+            verif::ev1("rd new");
             let mut msg = base;
             msg.insert(b"new-session".to_vec(), bstr(new_id));
             msg.insert(b"status".to_vec(), Value::List(vec![bstr("done")]));
@@ -1211,6 +1330,8 @@ fn handle_message(conn: &mut Connection, request: &HashMap<Vec<u8>, Value>) {
                     Value::List(vec![bstr("done"), bstr("session-closed")]),
                 );
             } else {
+                #[cfg(wilfred_garden_verif)]
+                verif::ev1("rd unk");
                 msg.insert(
                     b"status".to_vec(),
                     Value::List(vec![bstr("done"), bstr("error"), bstr("unknown-session")]),
@@ -1242,12 +1363,21 @@ fn handle_message(conn: &mut Connection, request: &HashMap<Vec<u8>, Value>) {
             let session_id = dict_get(request, "session").and_then(as_str);
             match session_id.and_then(|s| conn.sessions.get(s)) {
                 Some(s) => {
+                    #[cfg(wilfred_garden_verif)]
+                    let mut verif_guard = verif::lock();
                     s.interrupted.store(true, Ordering::SeqCst);
+                    #[cfg(wilfred_garden_verif)]
+                    {
+                        verif::ev(&mut verif_guard, "rd flag");
+                        drop(verif_guard);
+                    }
                     let mut msg = base;
                     msg.insert(b"status".to_vec(), Value::List(vec![bstr("done")]));
                     conn.send(Value::Dict(msg));
                 }
                 None => {
+                    #[cfg(wilfred_garden_verif)]
+                    verif::ev1("rd unk");
                     let mut msg = base;
                     msg.insert(
                         b"status".to_vec(),
@@ -1331,6 +1461,8 @@ fn writer_thread(mut writer: TcpStream, rx: Receiver<Value>) {
             error!("nREPL: error flushing writer: {e}");
             return;
         }
+        #[cfg(wilfred_garden_verif)]
+        verif::ev1("wr");
     }
 }
 
@@ -1378,8 +1510,12 @@ fn serve_connection(
             }
         };
 
+        #[cfg(wilfred_garden_verif)]
+        verif::ev1(&verif::describe_request(&request));
         handle_message(&mut conn, &request);
     }
+    #[cfg(wilfred_garden_verif)]
+    verif::ev1("eof");
 
     // Dropping `conn` drops every session's request channel, which
     // makes each worker exit once its current eval finishes. That in
@@ -1668,6 +1804,152 @@ pub(crate) fn run_nrepl(host: &str, port: u16, interrupted: Arc<AtomicBool>) {
             Err(e) => {
                 error!("nREPL: error accepting connection: {e}");
             }
+        }
+    }
+}
+
+/// H4 (verification only): a sequence-numbered log of the interaction
+/// points between the nREPL threads, written to the file named by
+/// `GARDEN_VERIF_NREPL_LOG`, plus optional schedule jitter driven by
+/// `GARDEN_VERIF_NREPL_YIELD=<seed>`. An action and its log line happen
+/// under one global lock, so the log order is the order of the actions.
+#[cfg(wilfred_garden_verif)]
+pub(crate) mod verif {
+    use std::cell::Cell;
+    use std::collections::HashMap;
+    use std::io::Write;
+    use std::sync::atomic::{AtomicU64, Ordering};
+    use std::sync::{Mutex, MutexGuard, OnceLock};
+
+    use serde_bencode::value::Value;
+
+    pub(crate) struct Log {
+        seq: u64,
+        out: std::fs::File,
+    }
+
+    static LOG: OnceLock<Option<Mutex<Log>>> = OnceLock::new();
+    static RNG: AtomicU64 = AtomicU64::new(0);
+
+    thread_local! {
+        static SID: Cell<i64> = const { Cell::new(-1) };
+    }
+
+    fn log() -> Option<&'static Mutex<Log>> {
+        LOG.get_or_init(|| {
+            let path = std::env::var("GARDEN_VERIF_NREPL_LOG").ok()?;
+            let out = std::fs::OpenOptions::new()
+                .create(true)
+                .append(true)
+                .open(path)
+                .ok()?;
+            if let Ok(seed) = std::env::var("GARDEN_VERIF_NREPL_YIELD") {
+                let seed: u64 = seed.parse().unwrap_or(1);
+                RNG.store(seed.wrapping_mul(0x9E37_79B9_7F4A_7C15) | 1, Ordering::SeqCst);
+            }
+            Some(Mutex::new(Log { seq: 0, out }))
+        })
+        .as_ref()
+    }
+
+    /// Randomly yield or sleep for a moment (only when a seed is given).
+    fn jitter() {
+        let mut x = RNG.load(Ordering::Relaxed);
+        if x == 0 {
+            return;
+        }
+        x ^= x << 13;
+        x ^= x >> 7;
+        x ^= x << 17;
+        RNG.store(x, Ordering::Relaxed);
+        match x % 16 {
+            0..=7 => {}
+            8..=12 => std::thread::yield_now(),
+            13 | 14 => std::thread::sleep(std::time::Duration::from_micros(20 * ((x >> 8) % 16))),
+            _ => std::thread::sleep(std::time::Duration::from_micros(500 * (1 + (x >> 8) % 4))),
+        }
+    }
+
+    pub(crate) fn lock() -> Option<MutexGuard<'static, Log>> {
+        let m = log()?;
+        jitter();
+        Some(m.lock().unwrap_or_else(|e| e.into_inner()))
+    }
+
+    pub(crate) fn ev(guard: &mut Option<MutexGuard<'static, Log>>, what: &str) {
+        if let Some(l) = guard.as_mut() {
+            l.seq += 1;
+            let line = format!("{} {}\n", l.seq, what);
+            let _ = l.out.write_all(line.as_bytes());
+        }
+    }
+
+    pub(crate) fn ev1(what: &str) {
+        let mut guard = lock();
+        ev(&mut guard, what);
+    }
+
+    /// Lock for the evaluator's flag check (no jitter: it runs every step).
+    pub(crate) fn check_guard() -> Option<MutexGuard<'static, Log>> {
+        if SID.with(|s| s.get()) < 0 {
+            return None;
+        }
+        Some(log()?.lock().unwrap_or_else(|e| e.into_inner()))
+    }
+
+    fn parse_session(name: &str) -> i64 {
+        name.rsplit("garden-")
+            .next()
+            .and_then(|n| n.parse::<i64>().ok())
+            .map(|n| n - 1)
+            .unwrap_or(-1)
+    }
+
+    /// Called by a session worker: remember which session this thread serves.
+    pub(crate) fn enter_worker() {
+        let sid = std::thread::current()
+            .name()
+            .map(parse_session)
+            .unwrap_or(-1);
+        SID.with(|s| s.set(sid));
+    }
+
+    pub(crate) fn sid() -> i64 {
+        SID.with(|s| s.get())
+    }
+
+    /// "w <sid>" on a worker thread, "f <sid>" on a flusher thread.
+    pub(crate) fn who(base_msg: &HashMap<Vec<u8>, Value>) -> String {
+        let mine = sid();
+        if mine >= 0 {
+            return format!("w {mine}");
+        }
+        let sid = match base_msg.get(b"session".as_slice()) {
+            Some(Value::Bytes(b)) => parse_session(&String::from_utf8_lossy(b)),
+            _ => -1,
+        };
+        format!("f {sid}")
+    }
+
+    fn hex(b: &[u8]) -> String {
+        if b.is_empty() {
+            return "-".to_owned();
+        }
+        b.iter().map(|x| format!("{x:02x}")).collect()
+    }
+
+    pub(crate) fn describe_request(request: &HashMap<Vec<u8>, Value>) -> String {
+        let field = |k: &str| match request.get(k.as_bytes()) {
+            Some(Value::Bytes(b)) => hex(b),
+            _ => "-".to_owned(),
+        };
+        format!("recv {} {} {}", field("id"), field("op"), field("session"))
+    }
+
+    /// An eval printed `text` on stdout (`out`) or stderr (`err`).
+    pub(crate) fn print_event(guard: &mut Option<MutexGuard<'static, Log>>, stream: &str, text: &str) {
+        if sid() >= 0 {
+            ev(guard, &format!("w {} print {} {}", sid(), stream, hex(text.as_bytes())));
         }
     }
 }
